@@ -220,3 +220,7 @@ func vxJitter() {
 		vxSleepMs(1)
 	}
 }
+
+// vxLibRead/vxLibWrite: race-detector attribution in the engine; natively the accesses below are real anyway.
+func vxLibRead(b []byte)  {}
+func vxLibWrite(b []byte) {}
